@@ -1,4 +1,234 @@
-// Mutation operators M1-M8 over reference encodings (DESIGN.md 4.4).
+// Mutation operators M1-M8 over reference encodings (DESIGN.md 4.4), driven by the encoder's field map.
+// Every mutation is emitted through a sink; nothing is sampled.
 #pragma once
+#include <functional>
+
 #include "refcodec.h"
-namespace vf {}
+
+namespace vf {
+
+enum class MKind : uint8_t {
+  Identity, Truncate, ByteSub, IntClass, FieldValue, PrefixSwap, EntryDup, EntryDrop, EntrySwap, Trailing,
+  EntryShrink, EntryGrowPadded, EntryGrowUnpadded, HashChange, ShortString
+};
+inline const char* mkind_name(MKind k) {
+  static const char* n[] = {"identity", "truncate", "bytesub", "intclass", "fieldvalue", "prefixswap", "entrydup", "entrydrop",
+                            "entryswap", "trailing", "entryshrink", "entrygrow+pad", "entrygrow-nopad", "hashchange", "short"};
+  return n[(int)k];
+}
+struct Mut {
+  MKind kind;
+  Role role = Role::Payload;   // role of the field that was touched (FieldValue / IntClass)
+  size_t pos = 0;              // byte position / field offset
+  uint64_t arg = 0;            // substituted byte / new field value / class prefix
+  std::vector<uint8_t> bytes;
+  bool category_comparable = false;  // single local defect whose error category the property pins
+  uint64_t max_declared = 0;   // largest length-like field value present after mutation (for unbounded readers)
+  std::string id() const {
+    return std::string(mkind_name(kind)) + "@" + std::to_string(pos) + ":" + std::to_string(arg);
+  }
+};
+
+struct MutCfg {
+  bool bytesub = true;        // M2
+  size_t bytesub_max_len = 96;
+  bool bytesub_structural_only = false;  // skip the interior bytes of raw payloads (first and last byte are kept)
+  bool thorough = false;
+};
+
+inline bool is_length_like(Role r) {
+  return r == Role::ByteLength || r == Role::Count || r == Role::FixedCount || r == Role::MemberCount || r == Role::LBLength ||
+         r == Role::EntryCount || r == Role::EntrySize;
+}
+inline bool is_int_field(Role r) {
+  return r == Role::IntValue || is_length_like(r) || r == Role::VarIndex || r == Role::HandleType || r == Role::HandleRef ||
+         r == Role::ErrCode || r == Role::TableHash || r == Role::EntryId;
+}
+
+// replace bytes [off, off+len) of src by rep
+inline std::vector<uint8_t> splice(const std::vector<uint8_t>& src, size_t off, size_t len, const std::vector<uint8_t>& rep) {
+  std::vector<uint8_t> o(src.begin(), src.begin() + off);
+  o.insert(o.end(), rep.begin(), rep.end());
+  o.insert(o.end(), src.begin() + off + len, src.end());
+  return o;
+}
+inline std::vector<uint8_t> min_uint(uint64_t v) {
+  Enc e;
+  enc_uint(e, v, Role::IntValue);
+  return e.bytes;
+}
+inline std::vector<uint8_t> min_sint(int64_t v) {
+  Enc e;
+  enc_sint(e, v, Role::IntValue);
+  return e.bytes;
+}
+
+inline void mutations(const Sch& s, const Val& v, const MutCfg& cfg, const std::function<void(const Mut&)>& sink) {
+  Enc e;
+  e.want_fields = true;
+  refenc(s, v, e);
+  const std::vector<uint8_t>& b = e.bytes;
+  uint64_t base_declared = 0;
+  for (auto& f : e.fields)
+    if (is_length_like(f.role)) base_declared = std::max(base_declared, f.value);
+  auto emit = [&](Mut& m) {
+    if (m.max_declared < base_declared && m.kind != MKind::FieldValue) m.max_declared = base_declared;
+    sink(m);
+  };
+  {
+    Mut m; m.kind = MKind::Identity; m.bytes = b; emit(m);
+  }
+  // M1 truncation at every k
+  for (size_t k = 0; k < b.size(); k++) {
+    Mut m; m.kind = MKind::Truncate; m.pos = k; m.bytes.assign(b.begin(), b.begin() + k); m.category_comparable = true; emit(m);
+  }
+  // M2 every byte position x every value
+  if (cfg.bytesub && b.size() <= cfg.bytesub_max_len) {
+    std::vector<char> skip(b.size(), 0);
+    if (cfg.bytesub_structural_only)
+      for (auto& f : e.fields)
+        if (f.role == Role::Payload && f.len > 2)
+          for (size_t i = f.off + 1; i + 1 < f.off + f.len; i++) skip[i] = 1;
+    for (size_t i = 0; i < b.size(); i++)
+      for (unsigned x = 0; x < 256; x++) {
+        if (skip[i]) break;
+        if (x == b[i]) continue;
+        Mut m; m.kind = MKind::ByteSub; m.pos = i; m.arg = x; m.bytes = b; m.bytes[i] = (uint8_t)x;
+        // a substituted byte may be (part of) a length: assume the worst for unbounded readers
+        m.max_declared = ~0ULL;
+        emit(m);
+      }
+  } else {
+    // M5 on long encodings: every prefix byte x every value
+    for (auto& f : e.fields) {
+      if (f.role != Role::Prefix) continue;
+      for (unsigned x = 0; x < 256; x++) {
+        if (x == b[f.off]) continue;
+        Mut m; m.kind = MKind::PrefixSwap; m.pos = f.off; m.arg = x; m.bytes = b; m.bytes[f.off] = (uint8_t)x;
+        m.max_declared = ~0ULL;
+        emit(m);
+      }
+    }
+  }
+  // M3 re-encode every integer field in every class able to hold its value (both signednesses)
+  static const uint8_t kClasses[] = {0x00, 0xc0, 0x80, 0x81, 0x82, 0x83, 0x84, 0x85, 0x86, 0x87};
+  for (auto& f : e.fields) {
+    if (!is_int_field(f.role)) continue;
+    for (uint8_t cls : kClasses) {
+      std::vector<uint8_t> rep;
+      // value reinterpretation: unsigned fields hold f.value; signed fields hold the sign-extended value
+      if (!enc_int_class(rep, cls, f.value)) continue;
+      // unsigned classes can only carry non-negative values of signed fields and vice versa
+      if (f.sgn && (int64_t)f.value < 0 && (cls == 0x00 || (cls >= 0x80 && cls <= 0x83))) continue;
+      if (!f.sgn && (f.value >> 63) && (cls == 0xc0 || cls >= 0x84)) continue;
+      std::vector<uint8_t> nb = splice(b, f.off, f.len, rep);
+      if (nb == b) continue;
+      Mut m; m.kind = MKind::IntClass; m.role = f.role; m.pos = f.off; m.arg = cls; m.bytes = std::move(nb);
+      m.category_comparable = true;
+      emit(m);
+    }
+  }
+  // M4 set every length/count/id/index/size field to boundary values
+  for (auto& f : e.fields) {
+    if (!is_int_field(f.role) || f.role == Role::IntValue || f.role == Role::ErrCode) continue;
+    std::vector<uint64_t> cands = {0, f.value - 1, f.value + 1, 127, 128, 255, 256, 65535, 65536, 1ULL << 31, (1ULL << 32) - 1,
+                                   1ULL << 32, 1ULL << 63, ~0ULL};
+    if (f.role == Role::TableHash) { cands.push_back(f.value ^ (1ULL << 40)); cands.push_back(f.value ^ (1ULL << 63)); cands.push_back(f.value & 0xffffffffULL); }
+    std::set<uint64_t> done;
+    for (uint64_t nv : cands) {
+      if (nv == f.value || !done.insert(nv).second) continue;
+      std::vector<uint8_t> rep = f.sgn ? min_sint((int64_t)nv) : min_uint(nv);
+      Mut m; m.kind = MKind::FieldValue; m.role = f.role; m.pos = f.off; m.arg = nv; m.bytes = splice(b, f.off, f.len, rep);
+      // local defects whose category the property names; variable counts and entry sizes cascade, so they are
+      // compared on accept/reject only
+      m.category_comparable = (f.role == Role::FixedCount || f.role == Role::MemberCount || f.role == Role::VarIndex ||
+                               f.role == Role::HandleType || f.role == Role::TableHash || f.role == Role::ByteLength ||
+                               f.role == Role::LBLength);
+      m.max_declared = is_length_like(f.role) ? std::max(base_declared, nv) : base_declared;
+      emit(m);
+    }
+  }
+  // M7 trailing bytes
+  for (uint8_t x : {0x00, 0xff, 0xbe}) {
+    Mut m; m.kind = MKind::Trailing; m.arg = x; m.bytes = b; m.bytes.push_back(x); emit(m);
+  }
+  // M6 / M8 table entries: spans from consecutive (EntryId, EntrySize) fields of the same depth
+  struct Span { size_t begin, size_off, size_len, val_begin, end; uint64_t size; int depth; size_t count_field; };
+  std::vector<Span> spans;
+  for (size_t i = 0; i + 1 < e.fields.size(); i++) {
+    if (e.fields[i].role != Role::EntryId) continue;
+    const Field& idf = e.fields[i];
+    const Field& szf = e.fields[i + 1];
+    if (szf.role != Role::EntrySize) continue;
+    // owning EntryCount: nearest preceding EntryCount with depth == idf.depth - 1
+    size_t cf = e.fields.size();
+    for (size_t j = i; j-- > 0;)
+      if (e.fields[j].role == Role::EntryCount && e.fields[j].depth == idf.depth - 1) { cf = j; break; }
+    spans.push_back({idf.off, szf.off, szf.len, szf.aux, szf.aux + (size_t)szf.value, szf.value, idf.depth, cf});
+  }
+  auto with_count = [&](std::vector<uint8_t> nb, const Span& sp, int delta, size_t edit_pos, long edit_delta) {
+    // adjust the owning table's entry count by delta; count field precedes the edit so offsets there are stable
+    if (sp.count_field >= e.fields.size()) return nb;
+    const Field& c = e.fields[sp.count_field];
+    (void)edit_pos; (void)edit_delta;
+    return splice(nb, c.off, c.len, min_uint(c.value + delta));
+  };
+  for (size_t a = 0; a < spans.size(); a++) {
+    const Span& sp = spans[a];
+    std::vector<uint8_t> entry(b.begin() + sp.begin, b.begin() + sp.end);
+    {  // duplicate adjacent (count + 1)
+      std::vector<uint8_t> nb = splice(b, sp.end, 0, entry);
+      nb = with_count(nb, sp, +1, 0, 0);
+      Mut m; m.kind = MKind::EntryDup; m.pos = sp.begin; m.bytes = std::move(nb); m.category_comparable = true; emit(m);
+    }
+    {  // drop (count - 1)
+      std::vector<uint8_t> nb = splice(b, sp.begin, sp.end - sp.begin, {});
+      nb = with_count(nb, sp, -1, 0, 0);
+      Mut m; m.kind = MKind::EntryDrop; m.pos = sp.begin; m.bytes = std::move(nb); emit(m);
+    }
+    // swap with the next entry of the same table
+    for (size_t c = a + 1; c < spans.size(); c++) {
+      const Span& sq = spans[c];
+      if (sq.depth != sp.depth || sq.count_field != sp.count_field || sq.begin != sp.end) continue;
+      std::vector<uint8_t> second(b.begin() + sq.begin, b.begin() + sq.end);
+      std::vector<uint8_t> both = second;
+      both.insert(both.end(), entry.begin(), entry.end());
+      Mut m; m.kind = MKind::EntrySwap; m.pos = sp.begin; m.bytes = splice(b, sp.begin, sq.end - sp.begin, both); emit(m);
+      break;
+    }
+    // shrink the declared size by 1..size (bytes unchanged)
+    for (uint64_t d = 1; d <= sp.size && d <= 12; d++) {
+      Mut m; m.kind = MKind::EntryShrink; m.pos = sp.size_off; m.arg = d;
+      m.bytes = splice(b, sp.size_off, sp.size_len, min_uint(sp.size - d));
+      emit(m);
+    }
+    // grow by 1..3 with and without the padding bytes present
+    for (uint64_t d = 1; d <= 3; d++) {
+      {
+        std::vector<uint8_t> nb = splice(b, sp.end, 0, std::vector<uint8_t>(d, 0x5a));  // non-zero padding is legal on input
+        nb = splice(nb, sp.size_off, sp.size_len, min_uint(sp.size + d));
+        Mut m; m.kind = MKind::EntryGrowPadded; m.pos = sp.size_off; m.arg = d; m.bytes = std::move(nb); emit(m);
+      }
+      {
+        Mut m; m.kind = MKind::EntryGrowUnpadded; m.pos = sp.size_off; m.arg = d;
+        m.bytes = splice(b, sp.size_off, sp.size_len, min_uint(sp.size + d));
+        emit(m);
+      }
+    }
+  }
+}
+
+// all byte strings of length <= maxlen, in order of length then lexicographic
+inline void short_strings(size_t maxlen, const std::function<void(const uint8_t*, size_t)>& sink) {
+  uint8_t buf[4];
+  sink(buf, 0);
+  for (size_t len = 1; len <= maxlen; len++) {
+    uint64_t total = 1ULL << (8 * len);
+    for (uint64_t x = 0; x < total; x++) {
+      for (size_t i = 0; i < len; i++) buf[i] = (uint8_t)(x >> (8 * (len - 1 - i)));
+      sink(buf, len);
+    }
+  }
+}
+
+}  // namespace vf
